@@ -22,19 +22,20 @@ def build(reg):
     externs.add_text(reg)       # text_() can raise UnicodeDecodeError (also inside exception messages)
     T = [c for c in T if c.qualname in ('HttpParser.del_header', 'HttpParser.del_headers')]
     pf = dict(proxyplugin.PARSER_FIELDS)
-    G = {'parses': 'int', 'fwd': 'int', 'parse_raised': 'bool', 'plugin_raised': 'bool'}
+    G = {'parses': 'int', 'fwd': 'int', 'parse_raised': 'bool', 'plugin_raised': 'bool', 'cur_req': 'int'}
     from pyvc.engine import from_py
     from proxy.http.responses import BAD_REQUEST_RESPONSE_PKT
     reg.spec_consts['BAD_REQUEST'] = from_py(BAD_REQUEST_RESPONSE_PKT)
     reg.contract(PF, 'HttpParser.parse', params={'raw': 'mv', 'allowed_url_schemes': ('opt', ('list', 'bytes'))},
                  self_cls='HttpParser', assumed=True, modifies=['self.' + f for f in pf if f != 'type'],
-                 ghost_init={'parses': 'int', 'parse_raised': 'bool'}, ensures=['parses == old(parses) + 1', 'parse_raised == old(parse_raised)'],
+                 ghost_init={'parses': 'int', 'parse_raised': 'bool', 'cur_req': 'int'},
+                 ensures=['parses == old(parses) + 1', 'parse_raised == old(parse_raised)',
+                          ('the-parsed-request-is-what-the-plugin-chain-starts-with', 'cur_req == evid(self)')],
                  raises={'Exception': ['parses == old(parses) + 1', 'parse_raised'],
                          'proxy.http.exception.HttpProtocolException': ['parses == old(parses) + 1', 'parse_raised']},
                  note='adversarial follow-up parser: any state afterwards, or any exception (C03)')
     hc = reg.contracts['ProxyBasePlugin.handle_client_request']
-    hc.result_alias = 'request'       # plugins pass the request on (possibly edited in place) or drop it
-    hc.note = 'pass-through-or-drop plugins (a plugin substituting a different parser object is outside this contract)'
+    hc.note = 'a plugin may edit the request in place, return a different parser object, or drop it (None)'
     hc.ghost_init = dict(hc.ghost_init, hc_log=('seq', 'int'), plugin_raised='bool')
     hc.ensures = hc.ensures + [('logged', 'hc_log == old(hc_log) + [self]'), ('no-raise-flag', 'plugin_raised == old(plugin_raised)')]
     hc.raises = dict((k, list(v) + [('logged', 'hc_log == old(hc_log) + [self]'), ('raise-flag', 'plugin_raised')])
@@ -53,7 +54,7 @@ def build(reg):
             ('every-segment-reaches-the-follow-up-parser', 'parses == old(parses) + 1 or '
              '(not isnone(old(self.pipeline_request)) and len(%s) == len(old(%s)) + 1)' % (UB, UB)),
             ('incomplete-request-is-kept',
-             '(not isnone(self.pipeline_request) and self.pipeline_request.state != 6) ==> %s == old(%s)' % (UB, UB)),
+             '(not isnone(self.pipeline_request) and self.pipeline_request.state != 6 and hc_log == old(hc_log)) ==> %s == old(%s)' % (UB, UB)),
             ('partial-request-survives-the-call',
              '(not isnone(old(self.pipeline_request)) and %s == old(%s) and not isnone(self.pipeline_request)) ==> '
              'True' % (UB, UB)),
@@ -79,7 +80,49 @@ def build(reg):
                 'Exception': [('repr', 'self.upstream._num_buffer == len(%s)' % UB),
                               ('only-a-user-plugin-raises-anything-else', 'plugin_raised')]},
         loops={0: LoopSpec(unroll=1), 1: LoopSpec(unroll=2)}))
+    T += web_followup_contracts(reg, pf)
     return T
+
+
+def web_followup_contracts(reg, pf):
+    """Built-in web server, later requests on a keep-alive connection to a route: a complete follow-up
+    request is handed to the route exactly once BEFORE any teardown (also when it is the last one:
+    `Connection: close` / HTTP/1.0), an unparsable or unknown-protocol one is answered with the canned 400."""
+    WB = 'proxy/http/server/web.py'
+    reg.klass('HttpWebServerPlugin', py='proxy.http.server.web:HttpWebServerPlugin', fields={
+        'client': ('obj', 'HttpClientConnection'), 'request': ('obj', 'HttpParser'), 'pipeline_request': ('opt', ('obj', 'HttpParser')),
+        'route': ('opt', ('opaque', 'RoutePlugin')), 'switched_protocol': ('opt', 'int'), '_post_request_data_size': 'int',
+        'flags': ('obj', 'Flags')})
+    reg.contract('<route>', 'RoutePlugin.on_client_data', self_cls='RoutePlugin', params={'request': ('obj', 'HttpParser'), 'raw': 'mv'},
+                 assumed=True, modifies=[], result=('opt', 'mv'), raises={'Exception': ['route_raised']},
+                 ghost_init={'route_raised': 'bool'}, ensures=['route_raised == old(route_raised)'], note='route hook: adversarial')
+    reg.contract('<route>', 'RoutePlugin.handle_request', self_cls='RoutePlugin', params={'request': ('obj', 'HttpParser')},
+                 assumed=True, modifies=['self.client.buffer', 'self.client._num_buffer'] if False else [],
+                 ghost_init={'handled': ('seq', 'int'), 'route_raised': 'bool'},
+                 ensures=[('logged', 'handled == old(handled) + [evid(request)]'), 'route_raised == old(route_raised)'],
+                 raises={'Exception': [('logged', 'handled == old(handled) + [evid(request)]'), 'route_raised']},
+                 note='the route answers the request (what it queues is the route\'s business); ghost log of handled request objects')
+    G = {'parses': 'int', 'parse_raised': 'bool', 'cur_req': 'int', 'handled': ('seq', 'int'), 'route_raised': 'bool'}
+    CB = 'self.client.buffer'
+    return [reg.contract(
+        WB, 'HttpWebServerPlugin.on_client_data', self_cls='HttpWebServerPlugin', params={'raw': 'mv'}, ghost_init=G,
+        body_slice=('if self.request.is_complete', 'if self.request.is_complete'),     # the keep-alive follow-up statement only
+        requires=[('client-inv', 'self.client._num_buffer == len(%s)' % CB),
+                  ('plain-http-route', 'not isnone(self.route) and (isnone(self.switched_protocol) or self.switched_protocol != 2)'),
+                  ('first-request-done', 'self.request.state == 6'),
+                  ('ghost-flags-start-clear', 'not parse_raised and not route_raised')],
+        modifies=['self.pipeline_request', 'self._post_request_data_size'],
+        raise_modifies=['self.pipeline_request', 'self._post_request_data_size', CB, 'self.client._num_buffer'],
+        ensures=[('handled-at-most-once', 'len(handled) <= len(old(handled)) + 1'),
+                 ('handled-request-is-the-one-just-parsed', 'len(handled) == len(old(handled)) + 1 ==> handled[len(handled) - 1] == cur_req'),
+                 ('a-parse-failure-cannot-return', 'parse_raised == old(parse_raised)'),
+                 ('finished-request-is-released-only-after-it-was-handled',
+                  '(isnone(self.pipeline_request) and not isnone(old(self.pipeline_request))) ==> len(handled) == len(old(handled)) + 1')],
+        raises={'proxy.http.exception.HttpProtocolException': [
+                    ('answered-before-teardown',
+                     'route_raised or len(handled) == len(old(handled)) + 1 or %s == old(%s) + [BAD_REQUEST]' % (CB, CB)),
+                    ('malformed-follow-up-is-answered-400', '(parse_raised and not old(parse_raised)) ==> %s == old(%s) + [BAD_REQUEST]' % (CB, CB))],
+                'Exception': [('only-the-route-raises-anything-else', 'route_raised')]})]
 
 
 CROSSCHECK = ['HttpParser.del_header', 'HttpParser.del_headers']
